@@ -26,7 +26,8 @@ RULE = ("seeded (pipeline, run_space) pairs (1-3 blocks, both modes at block and
         "rename) x {file, dir} x launch-id option x attempt in 1..3 x failing run index in {none, 0..n-1}; per pair: standalone "
         "runs in forked children, the launch, `inspect`, re-launch after cosmetic rewrite, after a plan mutation, after source "
         "file touch/change, and with same/different idempotency key. distinct_nontrivial = distinct (pair digest, options) "
-        "launches with >= 2 planned runs.")
+        "launches with >= 2 planned runs."
+        " Further seeded dimensions: multi-column sources with select, YAML in a sub-directory with decoy files in the cwd, empty plans, inspect+launch repeated in a fresh interpreter under another hash seed, --run-space-file, retry with the same idempotency key (attempt+1), run_space nested under pipeline:.")
 REAL_COMPONENTS = ["cli _run launch loop", "expand_run_space (plan source)", "RunSpaceIdentityService / LaunchManager / TraceEmitter",
                    "inspection builder (spec id)", "orchestrator pipeline_start FK fields", "JsonlTraceDriver (file / dir / runspace file)"]
 STUB_COMPONENTS = ["leaf processors", "SvOrchestrator/RecordingExecutor selected from YAML", "SimClock/SimUUID", "file seam"]
